@@ -1,11 +1,11 @@
 //! (language, script, region) sweeps shared by C01 (totality), C06, C07, C08: the library
 //! functions likelysubtags::{maximize, minimize} against the JSON-built reference.
-#![cfg(feature = "likely")]
 
 use crate::likely::{Expect, Likely, Triple};
 use crate::run::*;
 use rayon::prelude::*;
 use serde_json::{json, Value};
+#[cfg(feature = "likely")]
 use unic_langid::likelysubtags;
 use unic_locale::subtags::{Language, Region, Script};
 
@@ -142,9 +142,11 @@ pub fn sweep(cfg: &Cfg, h: &Handles, tag: &str, f: &(dyn Fn(Triple, &mut Stats, 
     total
 }
 
+#[cfg(feature = "likely")]
 pub fn lib_max(t: Lib) -> Result<Option<Lib>, PanicInfo> {
     guard(|| likelysubtags::maximize(t.0, t.1, t.2))
 }
+#[cfg(feature = "likely")]
 pub fn lib_min(t: Lib) -> Result<Option<Lib>, PanicInfo> {
     guard(|| likelysubtags::minimize(t.0, t.1, t.2))
 }
@@ -152,6 +154,7 @@ pub fn lib_min(t: Lib) -> Result<Option<Lib>, PanicInfo> {
 // ------------------------------------------------------------------------------------------
 // C01 part: totality only
 
+#[cfg(feature = "likely")]
 pub fn run_c01(cfg: &Cfg) -> Stats {
     let h = match Handles::load(cfg) {
         Ok(h) => h,
@@ -164,6 +167,7 @@ pub fn run_c01(cfg: &Cfg) -> Stats {
     sweep(cfg, &h, "c01", &|t, st, mode| c01_one(&h, t, st, mode))
 }
 
+#[cfg(feature = "likely")]
 fn c01_one(h: &Handles, t: Triple, st: &mut Stats, mode: Count) {
     st.eval();
     let lib = h.lib(t);
@@ -190,6 +194,7 @@ fn c01_one(h: &Handles, t: Triple, st: &mut Stats, mode: Count) {
     }
 }
 
+#[cfg(feature = "likely")]
 pub fn replay_c01(case: &Value, st: &mut Stats) {
     let cfg = Cfg { prop: "C01".into(), tier: Tier::Quick, seed: 0, verif: "/verif".into(), repo: std::env::var("VERIF_REPO").unwrap_or("/repo".into()).into(), start: std::time::Instant::now() };
     if let Ok(h) = Handles::load(&cfg) {
